@@ -103,7 +103,11 @@ Definition uinv (start : bool) (cb : bytes) : Prop :=
   forall y, exists m, m <= length cb /\ item start (cb ++ y) = bump_item m (unq_item (cb ++ y)).
 
 Definition ninv (start : bool) (cb : bytes) : Prop :=
-  match item start cb with IEnd _ => True | IEof k _ => k = length cb | _ => False end /\
+  match item start cb with
+  | IEnd n => n <= S (length cb)
+  | IEof k n => k = length cb /\ n <= S (length cb)
+  | _ => False
+  end /\
   (cb = [] \/ forall y, length cb < inee (item start (cb ++ y))).
 
 Definition pend (st : pstate) (start : bool) (cb : bytes) (o : nat) : Prop :=
@@ -133,33 +137,33 @@ Definition fbpost (start : bool) (bom : N) (l : bytes) (ptr : nat) (x : bytes) (
   (N.eqb bom 0 = false -> snd res = bom) /\
   match fst res with
   | ACrash _ => False
-  | ATok t adv => exists k m, adv = ptr + k /\ 0 < k <= length l /\
+  | ATok t adv => exists k m, adv = ptr + k /\ 0 < k <= length l /\ m <= length l /\
                    tk start (l ++ x) = (RTok t (skipn k (l ++ x)), m)
   | ARefill st c o => c <= length l /\
       pend st (start && Nat.eqb c (length l)) (skipn (length l - c) l) o /\
       (st = PNone -> start && Nat.eqb c (length l) = true -> snd res = bom) /\
-      exists m, tk start (l ++ x) =
+      exists m, m <= length l /\ tk start (l ++ x) =
                 bump m (tk (start && Nat.eqb c (length l)) (patom st (skipn (length l - c) l) ++ x))
   end.
 
 Lemma fbpost_skip start bom bom2 pre l2 ptr x n res :
-  pre <> [] ->
+  pre <> [] -> n <= length (pre ++ l2) ->
   tk start ((pre ++ l2) ++ x) = bump n (tk false (l2 ++ x)) ->
   (N.eqb bom 0 = false -> bom2 = bom) ->
   fbpost false bom2 l2 (ptr + length pre) x res -> fbpost start bom (pre ++ l2) ptr x res.
 Proof.
-  intros Hpre Htk Hb [Hbom H]. assert (Hd : 0 < length pre) by (destruct pre; [congruence|cbn; lia]).
+  intros Hpre Hnle Htk Hb [Hbom H]. assert (Hd : 0 < length pre) by (destruct pre; [congruence|cbn; lia]).
   split.
   { intros Hz. rewrite Hbom; [apply Hb; exact Hz|]. rewrite (Hb Hz). exact Hz. }
   destruct (fst res) as [st c o|t adv|site]; [| |exact H].
-  - destruct H as (Hc & Hp & _ & (m & Hm)). rewrite app_length.
+  - destruct H as (Hc & Hp & _ & (m & Hmle & Hm)). rewrite app_length in *.
     assert (Hne : Nat.eqb c (length pre + length l2) = false) by (apply Nat.eqb_neq; lia).
     rewrite Hne, andb_false_r. cbn [andb] in Hp, Hm.
     replace (length pre + length l2 - c) with (length pre + (length l2 - c)) by lia. rewrite skipn_app_pre.
     split; [lia|]. split; [exact Hp|]. split; [discriminate|].
-    exists (Nat.max n m). rewrite Htk, Hm. apply bump_bump.
-  - destruct H as (k & m & Hadv & Hk & Hm). exists (length pre + k), (Nat.max n m).
-    split; [lia|]. split; [rewrite app_length; lia|].
+    exists (Nat.max n m). split; [lia|]. rewrite Htk, Hm. apply bump_bump.
+  - destruct H as (k & m & Hadv & Hk & Hmle & Hm). exists (length pre + k), (Nat.max n m).
+    split; [lia|]. rewrite app_length in *. split; [lia|]. split; [lia|].
     rewrite Htk, Hm. unfold bump; cbn [fst snd]. rewrite <- app_assoc, skipn_app_pre. reflexivity.
 Qed.
 
@@ -199,7 +203,7 @@ Lemma item_default start c s :
       match s with
       | b1 :: b2 :: s3 =>
           if b_is b1 187 && b_is b2 191 then ISkip s3 3 else bump_item 3 (unq_item (c :: s))
-      | _ => IEof (length (c :: s)) 3
+      | _ => IEof (length (c :: s)) (S (length (c :: s)))
       end
     else unq_item (c :: s).
 Proof. intros. cbn [item]. repeat match goal with H : _ = false |- _ => rewrite H; clear H end. reflexivity. Qed.
@@ -215,15 +219,15 @@ Lemma unq_post start bom bom' c l' ptr x :
 Proof.
   intros Hb Hi.
   destruct (find_from is_boundary l' 0) as [k|] eqn:E; (split; [exact Hb|]); cbn [fst snd].
-  - pose proof (find_from_bounds _ _ _ _ E) as Hk. destruct (Hi x) as (m & _ & Hm).
-    exists (S k), (Nat.max m (S (S k))). split; [reflexivity|]. split; [cbn [length]; lia|].
+  - pose proof (find_from_bounds _ _ _ _ E) as Hk. destruct (Hi x) as (m & Hmle & Hm).
+    exists (S k), (Nat.max m (S (S k))). split; [reflexivity|]. split; [cbn [length]; lia|]. split; [cbn [length]; lia|].
     rewrite tk_unfold. cbn [app]. rewrite Hm. unfold unq_item. cbn [tl].
     rewrite (find_from_some_app _ l' x 0 k E). cbn [bump_item].
     f_equal. f_equal. cbn [firstn]. f_equal. f_equal. apply firstn_app_le. lia.
   - rewrite Nat.eqb_refl, andb_true_r, Nat.sub_diag. cbn [skipn].
     split; [lia|]. split.
     + split; [|reflexivity]. split; [discriminate|]. split; [exact E|]. exact Hi.
-    + split; [discriminate|]. exists 0. rewrite bump_0. reflexivity.
+    + split; [discriminate|]. exists 0. split; [lia|]. rewrite bump_0. reflexivity.
 Qed.
 
 Lemma two_char_post start bom c l' ptr x single double strict :
@@ -234,13 +238,13 @@ Proof.
   - cbn [length]. rewrite Nat.eqb_refl, andb_true_r. cbn [skipn Nat.sub].
     split; [lia|]. split.
     + split.
-      * rewrite (Hi []). reflexivity.
+      * rewrite (Hi []). cbn [op_item length]. split; [reflexivity|lia].
       * right. intros y. cbn [app]. rewrite (Hi y). cbn [length]. unfold op_item. destruct y as [|c3 y']; [cbn; lia|].
         destruct (b_is c3 61); cbn [inee]; lia.
-    + split; [reflexivity|]. exists 0. rewrite bump_0. reflexivity.
+    + split; [reflexivity|]. exists 0. split; [lia|]. rewrite bump_0. reflexivity.
   - rewrite tk_unfold. cbn [app]. rewrite (Hi (c2 :: l'' ++ x)). cbn [op_item]. destruct (b_is c2 61).
-    + exists 2, 2. split; [reflexivity|]. split; [cbn [length]; lia|]. reflexivity.
-    + exists 1, 2. split; [reflexivity|]. split; [cbn [length]; lia|]. reflexivity.
+    + exists 2, 2. split; [reflexivity|]. split; [cbn [length]; lia|]. split; [cbn [length]; lia|]. reflexivity.
+    + exists 1, 2. split; [reflexivity|]. split; [cbn [length]; lia|]. split; [cbn [length]; lia|]. reflexivity.
 Qed.
 
 Lemma bom_cond_eq c bom ptr pos0 :
@@ -257,12 +261,12 @@ Proof.
   destruct l as [|c l'].
   { (* window exhausted *)
     cbn [fb]. split; [reflexivity|]. cbn [fst snd length]. rewrite Nat.eqb_refl, andb_true_r. cbn [skipn Nat.sub].
-    split; [lia|]. split; [split; [exact I|left; reflexivity]|]. split; [reflexivity|].
-    exists 0. rewrite bump_0. reflexivity. }
+    split; [lia|]. split; [split; [cbn; lia|left; reflexivity]|]. split; [reflexivity|].
+    exists 0. split; [lia|]. rewrite bump_0. reflexivity. }
   cbn [fb].
   destruct (is_ws c) eqn:Ews.
   { (* whitespace *)
-    apply (fbpost_skip start bom bom [c] l' ptr x 1); [discriminate| |auto|].
+    apply (fbpost_skip start bom bom [c] l' ptr x 1); [discriminate|cbn [length app]; lia| |auto|].
     - rewrite tk_unfold. cbn [app]. rewrite item_ws by exact Ews. reflexivity.
     - cbn [length]. replace (ptr + 1) with (S ptr) by lia.
       pose proof (IH pos0 w l' (S ptr) bom x) as H. replace (Nat.eqb (S ptr) 0) with false in H by reflexivity.
@@ -278,7 +282,7 @@ Proof.
     - pose proof (find_from_bounds _ _ _ _ Ek) as Hk.
       assert (Hsplit : (35%N :: l') = (35%N :: firstn k l') ++ skipn k l') by (cbn [app]; rewrite firstn_skipn; reflexivity).
       rewrite Hsplit at 1.
-      apply (fbpost_skip start bom bom (35%N :: firstn k l') (skipn k l') ptr x (k + 2)); [discriminate| |auto|].
+      apply (fbpost_skip start bom bom (35%N :: firstn k l') (skipn k l') ptr x (k + 2)); [discriminate|rewrite <- Hsplit; cbn [length]; lia| |auto|].
       + rewrite <- Hsplit. rewrite tk_unfold. cbn [app]. rewrite item_hash.
         rewrite (find_from_some_app _ l' x 0 k Ek). rewrite skipn_app_le by lia. reflexivity.
       + cbn [length]. rewrite firstn_length. replace (Nat.min k (length l')) with k by lia.
@@ -293,18 +297,18 @@ Proof.
     - split; [reflexivity|]. cbn [fst snd]. rewrite Nat.eqb_refl, andb_true_r, Nat.sub_diag. cbn [skipn].
       split; [lia|]. split.
       + split.
-        * rewrite item_hash, Ek. exact I.
+        * rewrite item_hash, Ek. cbn [length]. lia.
         * right. intros y. cbn [app]. rewrite item_hash. rewrite (find_from_none_app _ l' y 0 Ek).
           destruct (find_from _ y (0 + length l')) as [k|] eqn:Ey.
           -- apply find_from_bounds in Ey. cbn [inee length]. lia.
           -- cbn [inee length]. rewrite app_length. lia.
-      + split; [reflexivity|]. exists 0. rewrite bump_0. reflexivity. }
+      + split; [reflexivity|]. exists 0. split; [lia|]. rewrite bump_0. reflexivity. }
   destruct (b_is c 123) eqn:E123.
   { apply b_is_eq in E123. subst c. split; [reflexivity|]. cbn [fst snd].
-    exists 1, 1. split; [lia|]. split; [cbn [length]; lia|]. rewrite tk_unfold. reflexivity. }
+    exists 1, 1. split; [lia|]. split; [cbn [length]; lia|]. split; [cbn [length]; lia|]. rewrite tk_unfold. reflexivity. }
   destruct (b_is c 125) eqn:E125.
   { apply b_is_eq in E125. subst c. split; [reflexivity|]. cbn [fst snd].
-    exists 1, 1. split; [lia|]. split; [cbn [length]; lia|]. rewrite tk_unfold. reflexivity. }
+    exists 1, 1. split; [lia|]. split; [cbn [length]; lia|]. split; [cbn [length]; lia|]. rewrite tk_unfold. reflexivity. }
   destruct (b_is c 34) eqn:E34.
   { (* quoted *)
     apply b_is_eq in E34. subst c. split.
@@ -312,44 +316,44 @@ Proof.
     destruct (qscan l' 0) as [i| |i] eqn:Eq; cbn [fst snd].
     - pose proof (qscan_bounds (length l') l' 0 i (le_n _) Eq) as Hi.
       pose proof (qscan_app_gen (length l') l' x 0 (le_n _)) as Hq. rewrite Eq in Hq.
-      exists (i + 2), (S i). split; [lia|]. split; [cbn [length]; lia|].
+      exists (i + 2), (S i). split; [lia|]. split; [cbn [length]; lia|]. split; [cbn [length]; lia|].
       rewrite tk_unfold. cbn [app]. rewrite item_quote, Hq.
       replace (i + 2) with (S (S i)) by lia. cbn [skipn]. rewrite firstn_app_le by lia. reflexivity.
     - assert (Hne : Nat.eqb (length l') (length (34%N :: l')) = false) by (apply Nat.eqb_neq; cbn [length]; lia).
       rewrite Hne, andb_false_r. replace (length (34%N :: l') - length l') with 1 by (cbn [length]; lia). cbn [skipn].
       pose proof (qinv_end l') as Hqi. rewrite Eq in Hqi.
       split; [cbn [length]; lia|]. split; [split; [reflexivity|apply Hqi; intros j; discriminate]|].
-      split; [discriminate|]. exists 0. rewrite bump_0. reflexivity.
+      split; [discriminate|]. exists 0. split; [lia|]. rewrite bump_0. reflexivity.
     - assert (Hne : Nat.eqb (length l') (length (34%N :: l')) = false) by (apply Nat.eqb_neq; cbn [length]; lia).
       rewrite Hne, andb_false_r. replace (length (34%N :: l') - length l') with 1 by (cbn [length]; lia). cbn [skipn].
       pose proof (qinv_end l') as Hqi. rewrite Eq in Hqi.
       split; [cbn [length]; lia|]. split; [split; [reflexivity|apply Hqi; intros j; discriminate]|].
-      split; [discriminate|]. exists 0. rewrite bump_0. reflexivity. }
+      split; [discriminate|]. exists 0. split; [lia|]. rewrite bump_0. reflexivity. }
   destruct (b_is c 64) eqn:E64.
   { (* '@' *)
     apply b_is_eq in E64. subst c. destruct l' as [|c2 l''].
     - split; [reflexivity|]. cbn [fst snd length]. rewrite Nat.eqb_refl, andb_true_r. cbn [skipn Nat.sub].
       split; [lia|]. split.
-      + split; [rewrite item_at; reflexivity|]. right. intros y. cbn [app]. rewrite item_at. cbn [length].
+      + split; [rewrite item_at; cbn [length]; split; [reflexivity|lia]|]. right. intros y. cbn [app]. rewrite item_at. cbn [length].
         destruct y as [|c2 y']; [cbn; lia|]. destruct (b_is c2 91).
         * destruct (find_from _ y' 0); cbn [inee]; lia.
         * unfold unq_item. destruct (find_from _ _ 0); cbn [inee length]; lia.
-      + split; [reflexivity|]. exists 0. rewrite bump_0. reflexivity.
+      + split; [reflexivity|]. exists 0. split; [lia|]. rewrite bump_0. reflexivity.
     - destruct (b_is c2 91) eqn:E91.
       + destruct (find_from (fun x0 => b_is x0 93) l'' 0) as [k|] eqn:Ek.
         * pose proof (find_from_bounds _ _ _ _ Ek) as Hk. split; [reflexivity|]. cbn [fst snd].
-          exists (k + 3), (k + 3). split; [lia|]. split; [cbn [length]; lia|].
+          exists (k + 3), (k + 3). split; [lia|]. split; [cbn [length]; lia|]. split; [cbn [length]; lia|].
           rewrite tk_unfold. cbn [app]. rewrite item_at, E91. rewrite (find_from_some_app _ l'' x 0 k Ek).
           f_equal. f_equal. f_equal. change (64%N :: c2 :: l'' ++ x) with ((64%N :: c2 :: l'') ++ x).
           apply firstn_app_le. cbn [length]. lia.
         * split; [reflexivity|]. cbn [fst snd]. rewrite Nat.eqb_refl, andb_true_r, Nat.sub_diag. cbn [skipn].
           split; [lia|]. split.
-          -- split; [rewrite item_at, E91, Ek; reflexivity|]. right. intros y. cbn [app]. rewrite item_at, E91.
+          -- split; [rewrite item_at, E91, Ek; cbn [length]; split; [reflexivity|lia]|]. right. intros y. cbn [app]. rewrite item_at, E91.
              rewrite (find_from_none_app _ l'' y 0 Ek).
              destruct (find_from _ y (0 + length l'')) as [k|] eqn:Ey.
              ++ apply find_from_bounds in Ey. cbn [inee length]. lia.
              ++ cbn [inee length]. rewrite app_length. lia.
-          -- split; [reflexivity|]. exists 0. rewrite bump_0. reflexivity.
+          -- split; [reflexivity|]. exists 0. split; [lia|]. rewrite bump_0. reflexivity.
       + apply unq_post; [auto|]. intros y. exists 0. split; [lia|]. rewrite bump_item_0. cbn [app]. rewrite item_at, E91. reflexivity. }
   destruct (b_is c 61) eqn:E61. { apply b_is_eq in E61. subst c. apply two_char_post. reflexivity. }
   destruct (b_is c 60) eqn:E60. { apply b_is_eq in E60. subst c. apply two_char_post. reflexivity. }
@@ -369,20 +373,20 @@ Proof.
     - (* one byte buffered *)
       split; [reflexivity|]. cbn [fst snd length]. rewrite Nat.eqb_refl, andb_true_r. cbn [skipn Nat.sub].
       split; [lia|]. split.
-      + split; [rewrite Hdef; reflexivity|]. right. intros y. cbn [app]. rewrite Hdef. cbn [andb].
+      + split; [rewrite Hdef; cbn [length]; split; [reflexivity|lia]|]. right. intros y. cbn [app]. rewrite Hdef. cbn [andb].
         destruct y as [|y1 [|y2 y3]]; [cbn [inee length]; lia|cbn [inee length]; lia|]. destruct (b_is y1 187 && b_is y2 191); [cbn [inee length]; lia|].
         destruct (unq_item _); cbn [bump_item inee length]; lia.
-      + split; [reflexivity|]. exists 0. rewrite bump_0. reflexivity.
+      + split; [reflexivity|]. exists 0. split; [lia|]. rewrite bump_0. reflexivity.
     - split; [reflexivity|]. cbn [fst snd length]. rewrite Nat.eqb_refl, andb_true_r. cbn [skipn Nat.sub].
       split; [lia|]. split.
-      + split; [rewrite Hdef; reflexivity|]. right. intros y. cbn [app]. rewrite Hdef. cbn [andb].
+      + split; [rewrite Hdef; cbn [length]; split; [reflexivity|lia]|]. right. intros y. cbn [app]. rewrite Hdef. cbn [andb].
         destruct y as [|y1 y2]; [cbn [inee length]; lia|]. destruct (b_is b1 187 && b_is y1 191); [cbn [inee length]; lia|].
         destruct (unq_item _); cbn [bump_item inee length]; lia.
-      + split; [reflexivity|]. exists 0. rewrite bump_0. reflexivity.
+      + split; [reflexivity|]. exists 0. split; [lia|]. rewrite bump_0. reflexivity.
     - rewrite E239. cbn [andb]. destruct (b_is b1 187 && b_is b2 191) eqn:Ebb.
       + (* present: skip three bytes *)
         cbn [skipn].
-        apply (fbpost_skip start 0%N 2%N [c; b1; b2] l3 0 x 3); [discriminate| |discriminate|].
+        apply (fbpost_skip start 0%N 2%N [c; b1; b2] l3 0 x 3); [discriminate|cbn [length app]; lia| |discriminate|].
         * rewrite tk_unfold. cbn [app]. rewrite Hdef. cbn [andb]. rewrite Ebb. reflexivity.
         * cbn [length]. pose proof (IH pos0 (c :: b1 :: b2 :: l3) l3 3 2%N x) as H.
           replace (pos0 && N.eqb 2 0 && Nat.eqb 3 0) with false in H by (destruct pos0; reflexivity).
